@@ -284,8 +284,8 @@ static NEXT_PORT: std::sync::atomic::AtomicUsize = std::sync::atomic::AtomicUsiz
 fn free_port() -> u16 {
     loop {
         let n = NEXT_PORT.fetch_add(1, std::sync::atomic::Ordering::SeqCst);
-        let base = 2000 + (std::process::id() as usize % 2) * 4000;
-        let port = (base + n % 4000) as u16;
+        let base = verif_harness::port_slot(2000);
+        let port = (base + n % 2000) as u16;
         if std::net::TcpListener::bind(("127.0.0.1", port)).is_ok() { return port; }
     }
 }
